@@ -303,7 +303,7 @@ def bounded(tier, seed, procs):
     if not ok:
         b2.fail(Failure("wrap-helpers", "what=multivector", dict(kind="mv"), expected="componentwise", actual=outcome.describe(r)[:200], functions=["make_common_subexpression"]))
     from props import c02 as P2
-    return [b, b2, P2.cse_once(tier), b_histogram_tagger(tier)]
+    return [b, b2, P2.cse_once(tier), b_histogram_tagger(tier), P2.evaluator_hooks(tier)]
 
 
 def b_histogram_tagger(tier):
